@@ -462,6 +462,16 @@ MOCK_OPS = {
 }
 
 
+SEED_FAMILY = [0, 1, 2, 7, 42, 12345, 2**31, 2**32 - 5, -1, -2, -7, -42, -12345]
+
+
+def _mock_apply_kw(ident: str, kw: dict, np):
+    from pyimpspec import generate_mock_data
+
+    d = generate_mock_data(ident, **kw)[0]
+    return dig(np.concatenate([np.asarray(d.get_frequencies(), dtype=complex), np.asarray(d.get_impedances(), dtype=complex)]))
+
+
 def _mock_apply(ident: str, op: str, np):
     from pyimpspec import generate_mock_circuits, generate_mock_data
 
@@ -506,6 +516,21 @@ def mock_case(arg) -> dict:
         if reference["data(seed=0)"] == reference["data(seed=1)"]:
             viols["mock|different-seeds-same-data"] = {"key": "mock|different-seeds-same-data", "count": 1, "case": {"part": "mock", "ident": ident, "ops": []},
                                                         "what": f"generate_mock_data({ident!r}) returns the same noisy data for seeds 0 and 1"}
+        # "differs between seeds": every pair from a seed family with small, negated and large members (no two of them congruent
+        # modulo 2**32, which the documented 32-bit seeding would map onto each other) must give different noisy data
+        def _seed_family():
+            out = {}
+            for sd in SEED_FAMILY:
+                d = _mock_apply_kw(ident, {"noise": 0.5, "seed": sd}, np)
+                out.setdefault(d, []).append(sd)
+            return [v for v in out.values() if len(v) > 1]
+        n += len(SEED_FAMILY)
+        for same in in_child(_seed_family):
+            key = "mock|different-seeds-same-data|" + ("negated" if any(a == -b for a in same for b in same if a != 0) else "other")
+            if key not in viols:
+                viols[key] = {"key": key, "count": 0, "case": {"part": "mock", "ident": ident, "ops": []},
+                              "what": f"generate_mock_data({ident!r}, noise=0.5) returns bit-identical data for the different seeds {same}"}
+            viols[key]["count"] += 1
         for ops in itertools.product(MOCK_OPS, repeat=3):
             nseq += 1
             bad = in_child(lambda ops=ops: mock_sequence(ident, ops, reference, np))   # every sequence starts from a fresh process image
@@ -569,7 +594,7 @@ def run(ctx) -> None:
                 "evaluate_log_F_ext (10, 20 evaluations) and the cnls test under the controlled pool (ordered imap/map: zero choice points "
                 "expected); every execution is compared with the serial result. TLC: PoolModel for (N, P) in {(3,2),(4,2),(4,3),(5,2),(5,5)}, "
                 "terminal traces compared with the enumerator and replayed on the pool and on perform_zhit. Repetition: serial call twice in one "
-                "process; 8 entry points in three fresh processes (PYTHONHASHSEED 0/12345/0); mock data: for every definition all sequences of 3 operations from {4 data requests (two seeds, drift, points per decade), modify the circuit returned by generate_mock_circuits in place}, each request compared bit for bit with the same request as first call of a fresh process; a "
+                "process; 8 entry points in three fresh processes (PYTHONHASHSEED 0/12345/0); mock data: for every definition all sequences of 3 operations from {4 data requests (two seeds, drift, points per decade), modify the circuit returned by generate_mock_circuits in place}, plus pairwise-different data over a family of 13 seeds (small, negated, 2^31, near 2^32), each request compared bit for bit with the same request as first call of a fresh process; a "
                 "free-running pass with the real Pool at num_procs 2/4/16 (sampling).")
     ctx.assumptions = ["results travel by pickle and workers share no memory: the controlled pool reproduces exactly that", "time-outs and real OS scheduling are not modelled",
                        "BHT and TR-RBF draw unseeded random start values by design and are excluded"]
